@@ -7,7 +7,7 @@ from ..core import REPO, CaseTimeout, case_timeout
 from ..gen_expr import Gen, datasets
 from ..refeval import evaluate
 
-N_CASES = {"quick": 320, "thorough": 12000}  # per shard
+N_CASES = {"quick": 320, "thorough": 300000}  # per shard
 TIME_BUDGET = {"quick": 60, "thorough": 270}
 META = {
     "rule": "closed query ASTs from the shape-directed generator (1-6 stages, depth<=4, three binder-naming schemes, "
